@@ -1000,4 +1000,7 @@ func runC10(c *Ctx) {
 	runC16API(c)
 	// (E) kubernetesStatefulSet membership
 	runC10StatefulSet(c)
+	runRetryHelper(c)
+	runAnnouncementOrder(c)
+	runHaGroup(c)
 }
